@@ -361,6 +361,11 @@ func (am *Manager) Stop(graceful bool) error {
 	return nil
 }
 
+// BaseBlockHash returns the hash of the block on whose state the manager works
+func (am *Manager) BaseBlockHash() common.Hash {
+	return am.baseBlockHash
+}
+
 func (am *Manager) CurrentBlockHeight() uint32 {
 	if am.baseBlock == nil {
 		return 0
